@@ -19,7 +19,7 @@ EXPLANATION = (
     " C20-b also requires every encoder result that carries a dynamic-table index (Relative, PostBase, Inserted, Duplicated, InsertedWith*NameRef) to be tracked by track_ref on the same path.")
 # every anchor of these rules lives in the h3 crate: thorough tier repeats them on the feature-less build
 EXTRA_CONFIGS = ["h3-plain"]
-RULES = "C20-a capacity guard (A2/A3); C20-b eviction guarded by references, scan stops at the first referenced entry, every index the encoder hands out is tracked and reported as the section's required reference, evict cleans both lookup maps (A3/A4/A10); C20-c instruction codecs (A11 + decision lists); C20-d section prefix: get() inverts new() and equals RFC 9204 4.5.1.1 over small table states (extracted-expression evaluation), relative(i) = relative_base(inserted, i) = the i-th newest live entry over small states; C20-c also: a parsed encoder instruction is applied before the next one is parsed"
+RULES = "C20-a capacity guard (A2/A3); C20-b eviction guarded by references, scan stops at the first referenced entry, every index the encoder hands out is tracked and reported as the section's required reference, evict cleans both lookup maps (A3/A4/A10); C20-c instruction codecs, Action::parse consumes only complete instructions (A11 + decision lists/A2); C20-b also: Duplicate carries the relative, the field line the post-base index of a duplicated entry; C20-d section prefix: get() inverts new() and equals RFC 9204 4.5.1.1 over small table states (extracted-expression evaluation), relative(i) = relative_base(inserted, i) = the i-th newest live entry over small states; C20-c also: a parsed encoder instruction is applied before the next one is parsed"
 
 HERE = os.path.dirname(os.path.dirname(os.path.abspath(__file__)))
 WIRE = json.load(open(os.path.join(HERE, "ref", "rfc9204_wire_formats.json")))
@@ -386,6 +386,40 @@ def run(ctx):
                         badr.append((maxe, total, enc, got, want))
         ctx.check(not badr, "C20-d", g.key, "Required Insert Count reconstruction = RFC 9204 4.5.1.1 on every valid encoding (%d cases)" % m,
                   "reconstruction differs from RFC 9204 4.5.1.1 for (max_entries, total inserts, encoded count) = %s" % badr[:3], "%d cases" % m)
+    # ------------------------------------------------------------ C20-c a decoder instruction is consumed only when it was read completely
+    ap = ru.need(ctx, "C20-c", Q + "encoder::Action::parse")
+    if ap:
+        nadv = 0
+        for p in [p for p in ru.all_paths(ctx, "C20-c", ap, max_visits=1) if p.end == "return"]:
+            if not p.calls("::advance"):
+                continue
+            nadv += 1
+            st_ = [t for t in p.tests if (t[3][0] == "call" and pa.short(t[3][1]) in ("is_some", "is_none")) or (t[3][0] == "discr" and t[2] in ("Some", "None") and "branch" not in t[1])]
+            whole = bool(st_) and ((st_[-1][3][0] == "call" and ((pa.short(st_[-1][3][1]) == "is_some") == (st_[-1][2] == "true"))) or (st_[-1][3][0] == "discr" and st_[-1][2] == "Some"))
+            ctx.check(whole, "C20-c", ap.key, "the decoder-stream buffer is advanced only past a completely parsed instruction",
+                      "Action::parse advances the receive buffer on a path that did not find an instruction (Some): the first bytes of an instruction "
+                      "that arrives in two pieces are thrown away and its rest is read as another instruction (e.g. a Section Acknowledgment's tail "
+                      "as a Stream Cancellation)", "", None, p.describe())
+        ctx.floor("C20-c", "consuming paths of Action::parse", nadv, 3)
+    # what a duplicated entry is announced with: the Duplicate instruction names the existing entry by its RELATIVE index (encoder stream,
+    # RFC 9204 4.3.4), the field line refers to the new copy by its POST-BASE index - the two numbers come from those two fields
+    ef = prog.one(Q + "encoder::Encoder::encode_field")
+    if ef:
+        ndup = 0
+        for p in ru.all_paths(ctx, "C20-b", ef, max_visits=1):
+            for e in p.events:
+                if e[0] != "call" or e[2].cname != "encode" or not e[3] or e[3][0][0] != "agg":
+                    continue
+                a = e[3][0]
+                nm = a[1].rsplit("::", 1)[-1]
+                if nm not in ("Duplicate", "IndexedWithPostBase") or not a[3] or "<Duplicated>" not in pa.vfmt(a[3][0]):
+                    continue
+                ndup += 1
+                want = "relative" if nm == "Duplicate" else "postbase"
+                ctx.check(pa.vfmt(a[3][0]).endswith("<Duplicated>." + want), "C20-b", ef.key, "%s carries the duplicated entry's %s index" % (nm, want),
+                          "encode_field writes %s(%s): the decoder copies, or the field line names, another entry than the encoder means and the two "
+                          "tables diverge" % (nm, pa.vfmt(a[3][0])[-40:]), "", None, p.describe())
+        ctx.floor("C20-b", "instructions written for a duplicated entry", ndup, 2)
     # ------------------------------------------------------------ C20-d index translation: sibling agreement over small table states
     # RFC 9204 3.2.5: a relative index in an encoder instruction counts back from the insertion point, i.e. it is the relative index
     # under Base = number of insertions. `relative(i)` and `relative_base(inserted, i)` are two implementations of that one mapping and
